@@ -10,7 +10,8 @@ SPEC = {
     "level_text": (
         "Proved on the model (Model/Cmd.lean, instantiated with the regenerated sequence table and quote facts): "
         "expansions of label and file sequences in build commands are paths prepareSources links (C37_exists_label, "
-        "C37_exists_file, C37_exists_dir), out_ and tool sequences name the real outputs (C37_out_paths, C37_tool_abs), "
+        "C37_exists_file, C37_exists_dir, composed through label parsing, dependency lookup, guards, output loop and quoting "
+        "in C37_locations_end_to_end; lifted to whole commands `pre $(kw arg) post` by C37_command_in_context), out_ and tool sequences name the real outputs (C37_out_paths, C37_tool_abs), "
         "non-dependency / unparsable labels, multi-output and non-binary misuse are rejected (C37_reject_*), and paths "
         "made of ordinary characters and the characters quote reacts to are exactly one shell word each "
         "(C37_one_word_partial, C37_words_partial). PARTIAL: five clauses of the full statement are false on the pinned "
@@ -22,8 +23,11 @@ SPEC = {
     "technique": "Lean 4 theorems over an executable model of ReplaceSequences + a POSIX-subset word splitter; regenerated "
                  "sequence table/quote set/guards; differential correspondence incl. real bash; file-system oracle",
     "trusted": [
-        "go/ast extractor harness/extract/c37 (regex keywords, pass order, slice offsets, the five flags of every pass, "
-        "quote's character set and wrappers, the guard chain of checkAndReplaceSequence)",
+        "go/ast extractor harness/extract/c37 (regex keywords, pass order and chaining, slice offsets, the five flags of every "
+        "pass, quote's character set and wrappers, the guard chain of checkAndReplaceSequence as sorted role-named atoms, and "
+        "canonical skeletons - parameters by position, locals by declaration order, messages blanked - of the rest of "
+        "checkAndReplaceSequence, fileDestination, handleDir, replaceSequenceLabel, replaceSequence, splitEntryPoint, "
+        "sourcesOrTools)",
         "correspondence harness/cmd/c37 vs Driver/C37.lean: core.ReplaceSequences/ReplaceTestSequences on generated "
         "targets and commands, core.IterSources, filepath.Join, TryParseBuildLabel, and the Lean shellWords against a real "
         "bash on the quote/backslash/blank subset",
